@@ -165,10 +165,10 @@ func (p *printer) printDecl(d Decl) {
 		p.indent++
 		for _, m := range t.Members {
 			if m.Align != 0 {
-				p.attr("align", strconv.Itoa(m.Align))
+				p.attr("align", strconv.Itoa(m.Align)+m.AttrSuffix)
 			}
 			if m.Size != 0 {
-				p.attr("size", strconv.Itoa(m.Size))
+				p.attr("size", strconv.Itoa(m.Size)+m.AttrSuffix)
 			}
 			p.tok(m.Name, "ident")
 			p.tokG(":", "punct", true, false)
